@@ -1,6 +1,6 @@
 """C17 - IntervalRegressor bootstraps over the whole training set, aggregates exactly."""
 from vf import loader
-from vf.core import Clause, Outcome, Violation, require
+from vf.core import Clause, Outcome, Violation, require, np_scalars, with_np
 from vf.estimators import RecordingRegressor
 
 import math
@@ -16,7 +16,7 @@ RULE = ("Hypothesis draws n in 1..12 (tiny on purpose), alpha in 0.3..2.0, n_est
         "ids must have been drawn whenever a correct uniform sampler would miss one with probability < 1e-12 "
         "(n*((n-1)/n)^draws); otherwise that sub-clause is skipped and the case is trivial for it. Aggregation clause also runs "
         "with LinearRegression / DecisionTreeRegressor bases. Non-trivial: n>=2 and eligibility applied, or weights present. "
-        "The query batch comes as float64, float32, int64 or int32. Distinct = distinct case JSON.")
+        "The query batch comes as float64, float32, int64 or int32. One case in three passes its scalar hyper-parameters as NumPy scalars (numpy.bool_, numpy.int64, numpy.float64). Distinct = distinct case JSON.")
 ASSUMPTIONS = ["round(alpha*n) is floor(alpha*n+1/2); at an exact .5 the round-half-even value is accepted as well",
                "statistical statement 'every row eligible' is checked through a deterministic consequence with miss probability < 1e-12"]
 TOLERANCES = {"predict==mean": "1e-12 relative", "min<=predict<=max": "1e-12 relative"}
@@ -44,7 +44,7 @@ def check_bootstrap(case):
     # meta-estimator's business and stay independent draws
     base = RecordingRegressor(yield_fit=case.get("yield_fit", 0), random_state=case.get("base_random_state"))
     facts["base_random_state"] = case.get("base_random_state")
-    model = _mod.IntervalRegressor(estimator=base, n_estimators=ne, alpha=alpha, n_jobs=case["n_jobs"])
+    model = _mod.IntervalRegressor(estimator=base, **np_scalars(dict(n_estimators=ne, alpha=alpha, n_jobs=case["n_jobs"]), case.get("np_params", False)))
     # the training table may be a DataFrame and the targets / weights pandas Series whose index is not 0..n-1 in order (a frame that
     # was sorted and not re-indexed): a drawn row is a position, its features, target and weight stay together
     cont = case.get("container", "array")
@@ -109,7 +109,7 @@ def check_aggregate(case):
     facts = dict(n=n, alpha=alpha, n_estimators=ne, base=case["base"], n_jobs=case["n_jobs"])
     base = {"recording": RecordingRegressor(), "linear": LinearRegression(),
             "tree": DecisionTreeRegressor(max_depth=2, random_state=0)}[case["base"]]
-    model = _mod.IntervalRegressor(estimator=base, n_estimators=ne, alpha=alpha, n_jobs=case["n_jobs"])
+    model = _mod.IntervalRegressor(estimator=base, **np_scalars(dict(n_estimators=ne, alpha=alpha, n_jobs=case["n_jobs"]), case.get("np_params", False)))
     np.random.seed(case["seed"])
     model.fit(X, y, w) if w is not None else model.fit(X, y)
     Q = np.array(case["Q"], dtype=np.float64).reshape(-1, case["d"])
@@ -175,8 +175,8 @@ def _agg_cases(draw, tier="quick"):
 
 
 CLAUSES = [
-    Clause("bootstrap", check_bootstrap, strategy=lambda tier: _boot_cases(tier), quick=700, thorough=12000, quick_shards=12,
+    Clause("bootstrap", check_bootstrap, strategy=lambda tier: with_np(_boot_cases(tier)), quick=700, thorough=12000, quick_shards=12,
            doc="resample size, alignment of (x,y,w), eligibility of every row, base estimator untouched"),
-    Clause("aggregate", check_aggregate, strategy=lambda tier: _agg_cases(tier), quick=500, thorough=8000, quick_shards=4,
+    Clause("aggregate", check_aggregate, strategy=lambda tier: with_np(_agg_cases(tier)), quick=500, thorough=8000, quick_shards=4,
            doc="predict == mean(predict_all); predict_sorted sorted permutation; min <= predict <= max"),
 ]
